@@ -160,27 +160,29 @@ Theorem C12_stats_kind_agree_int_float :
 Proof. exact int_float_agree. Qed.
 Print Assumptions C12_stats_kind_agree_int_float.
 
-(* ---- non-vacuity ------------------------------------------------------------------------------------------ *)
-Example C12_example_mixed :
-  let cells := [VInt 1; VStr "a"; VNone; VFlt FNan; VFlt (FFin false 5 (-1)); VInt 10; VInt 2] in   (* 1 a None nan 2.5 10 2 *)
-  in_scope cells = true /\ Forall int_exact cells /\
-  m_stat Mean cells = MVal (qc 31 8) /\ m_stat Median cells = MVal (qc 9 4) /\ m_stat Min cells = MVal (qz 1) /\
-  m_stat Max cells = MVal (qz 10) /\ m_stat Sum cells = MVal (qc 31 2) /\ m_stat Var cells = MVal (qc 873 48).
+(* ---- non-vacuity (mres_eqb a b = true <-> a = b) ------------------------------------------------------------ *)
+Theorem C12_mres_eqb_eq : forall a b, mres_eqb a b = true <-> a = b.
+Proof. exact mres_eqb_eq. Qed.
+Print Assumptions C12_mres_eqb_eq.
+
+Definition ex_cells : list val :=       (* 1 'a' None nan 2.5 10 2 *)
+  [VInt 1; VStr "a"; VNone; VFlt FNan; VFlt (FFin false 5 (-1)); VInt 10; VInt 2].
+Example C12_example_premises : in_scope ex_cells = true /\ Forall int_exact ex_cells.
 Proof.
-  cbv zeta. split; [vm_compute; reflexivity|]. split.
-  - repeat (apply Forall_cons; [exact I || (vm_compute; reflexivity)|]). apply Forall_nil.
-  - split; [vm_compute; reflexivity|]. split; [vm_compute; reflexivity|]. split; [vm_compute; reflexivity|].
-    split; [vm_compute; reflexivity|]. split; vm_compute; reflexivity.
+  split; [vm_compute; reflexivity|].
+  repeat (apply Forall_cons; [exact I || (vm_compute; reflexivity)|]). apply Forall_nil.
 Qed.
+Example C12_example_mixed :
+  forallb (fun p : stat * Qc => mres_eqb (m_stat (fst p) ex_cells) (MVal (snd p)))
+    [(Mean, qc 31 8); (Median, qc 9 4); (Min, qz 1); (Max, qz 10); (Sum, qc 31 2); (Var, qc 273 16)] = true.
+Proof. vm_compute. reflexivity. Qed.
 Example C12_example_std : is_std [qz 1; qz 1; qz 1; qz 4] (qc 3 2).
 Proof. split; [vm_compute; discriminate | apply Qc_is_canon; vm_compute; reflexivity]. Qed.
 Example C12_example_nan :
-  m_stat Mean [VStr "a"; VNone; VFlt FNan] = MNan /\ m_stat Var [VInt 3; VStr "a"] = MNan /\
-  f_stat Sum [FNan; FNan] = MVal 0 /\ f_stat Sum [] = MNan /\ i_stat Median [] = MNan.
-Proof.
-  split; [vm_compute; reflexivity|]. split; [vm_compute; reflexivity|]. split; [vm_compute; reflexivity|].
-  split; vm_compute; reflexivity.
-Qed.
+  forallb (fun p : mres * mres => mres_eqb (fst p) (snd p))
+    [(m_stat Mean [VStr "a"; VNone; VFlt FNan], MNan); (m_stat Var [VInt 3; VStr "a"], MNan);
+     (f_stat Sum [FNan; FNan], MVal 0); (f_stat Sum [], MNan); (i_stat Median [], MNan)] = true.
+Proof. vm_compute. reflexivity. Qed.
 Example C12_example_unique :
   unique_ok [VInt 5; VInt 1; VFlt FNan; VInt 5; VStr "a"; VNone] [VNone; VStr "a"; VInt 1; VFlt FNan; VInt 5] = true /\
   unique_ok [VInt 5; VInt 1; VFlt FNan; VInt 5] [VInt 1; VInt 5; VFlt FNan; VInt 5] = false.
